@@ -49,7 +49,7 @@ var Table = []Def{
 	},
 	{
 		Name:    "len",
-		Params:  []Param{{Name: "v", Type: cty.DynamicPseudoType}},
+		Params:  []Param{{Name: "v", Type: cty.DynamicPseudoType, AllowDynamic: true}},
 		RetType: fixed(cty.Number),
 		Impl: func(a []cty.Value, _ cty.Type) (cty.Value, error) {
 			v := a[0]
@@ -116,7 +116,7 @@ var Table = []Def{
 	},
 	{
 		Name:    "nullok",
-		Params:  []Param{{Name: "v", Type: cty.DynamicPseudoType, AllowNull: true}},
+		Params:  []Param{{Name: "v", Type: cty.DynamicPseudoType, AllowNull: true, AllowDynamic: true}},
 		RetType: fixed(cty.Bool),
 		Impl: func(a []cty.Value, _ cty.Type) (cty.Value, error) {
 			return cty.BoolVal(a[0].IsNull()), nil
@@ -144,7 +144,7 @@ var Table = []Def{
 	},
 	{
 		Name:   "ns::id",
-		Params: []Param{{Name: "v", Type: cty.DynamicPseudoType, AllowNull: true}},
+		Params: []Param{{Name: "v", Type: cty.DynamicPseudoType, AllowNull: true, AllowDynamic: true}},
 		RetType: func(a []cty.Value) (cty.Type, error) {
 			return a[0].Type(), nil
 		},
